@@ -108,6 +108,7 @@ def strategy_(draw, tier):
     for b, s, _ in spec["blocks"]:
         pts += [b * bs, (b + 1) * bs]
     spec["requests"] = draw(strat.requests(spec["size"], bs, count=6, points=pts, whole_limit=4 << 20))
+    spec["via_minimal"] = draw(strat.minimal_handle())
     ss = spec["sector_size"]
     spec["sector_requests"] = [[o // ss, max(1, min(n, 1 << 20) // ss)] for o, n in spec["requests"][:2]]
     return spec
@@ -154,6 +155,9 @@ def check(spec) -> Outcome:
     if v.size != spec["size"]:
         out.fail(f"mismatch|{tag}-size", f"size {v.size} != {spec['size']}")
     check_reads(out, v, lay, spec["requests"], tag)
+    from hv.core import also_minimal
+
+    also_minimal(out, spec, fh, VHDX, lay, spec["requests"], tag, limit=24 << 20)
     for s, c in spec.get("sector_requests", []):
         c = min(c, spec["size"] // ss - s)
         if c <= 0:
